@@ -1,9 +1,14 @@
 import IrVerif.Drive.Util
 import IrVerif.Model.WriterN
+import IrVerif.Model.WriterNC
+import IrVerif.Model.WriterPlan
 import Std.Data.HashSet
 /-! Protocol handler for the general (nested) writer transition system (C09).
 `writern.run {cfg, sched}` / `writern.cover {cfg, maxStates}`: as `writer.run` / `writer.cover`;
-labels are `[0,q,c]` owner of pool q, `[1,q,0]` take, `[2,q,0]` exit, `[3,i,0]` task i. -/
+labels are `[0,q,c]` owner of pool q, `[1,q,0]` take, `[2,q,0]` exit, `[3,i,0]` task i.
+With `"nc": true` both use the transition system of the writer without a callback (`stepNC`).
+`writern.plan {ts, maxShard, al, athr, workers, capacity}`: the configuration `planCfg` builds from the
+arguments of the save (offsets, shards, pool tree, start images), or null. -/
 open Lean IrVerif.Drive
 namespace IrVerif.Drive.WriterN
 open IrVerif.WriterN
@@ -36,6 +41,27 @@ def getCfg (j : Json) : Except String Cfg := do
            pools := ← (← getArr c "pools").mapM getPool,
            jobs := ← (← getArr c "jobs").mapM getJob, files := fs }
 
+def getTSpec (j : Json) : Except String TSpec := do
+  return { obj := ← getNat j "obj", size := ← getNat j "size", fails := ← getBool j "fails",
+           cbFails := ← getBool j "cbFails", data := ← getNats j "data" }
+
+def optNatJ : Option Nat → Json
+  | none => Json.null
+  | some n => toJson n
+
+def cfgJ (c : Cfg) : Json :=
+  obj [("capacity", toJson c.capacity), ("nObjs", toJson c.nObjs),
+       ("tensors", Json.arr (c.tensors.map fun t =>
+          obj [("obj", toJson t.obj), ("size", toJson t.size), ("fails", toJson t.fails),
+               ("cbFails", toJson t.cbFails), ("job", toJson t.job), ("file", toJson t.file),
+               ("off", toJson t.off), ("data", natsJ t.data)]).toArray),
+       ("pools", Json.arr (c.pools.map fun p =>
+          obj [("size", toJson p.size), ("asCompleted", toJson p.asCompleted), ("jobs", natsJ p.jobs),
+               ("innerCb", toJson p.innerCb), ("parent", optNatJ p.parent)]).toArray),
+       ("jobs", Json.arr (c.jobs.map fun jb =>
+          obj [("pool", toJson jb.pool), ("start", toJson jb.start), ("sub", optNatJ jb.sub)]).toArray),
+       ("files", Json.arr (c.files.map natsJ).toArray)]
+
 def getLabel (j : Json) : Except String Label := do
   let a ← (fromJson? j : Except String (Array Nat))
   match a.toList with
@@ -65,13 +91,21 @@ def ownerS : OwnerPc → String
   | .notCreated => "notCreated" | .submit _ => "submit" | .collect => "collect" | .join _ => "join"
   | .closed false => "returned" | .closed true => "raised"
 
-def choices (cfg : Cfg) (s : State) : List Label :=
+def stepF (nc : Bool) (cfg : Cfg) (s : State) (l : Label) : Option State :=
+  if nc then stepNC cfg s l else step cfg s l
+
+def getNc (j : Json) : Bool :=
+  match j.getObjVal? "nc" with
+  | .ok (Json.bool b) => b
+  | _ => false
+
+def choices (nc : Bool) (cfg : Cfg) (s : State) : List Label :=
   let owners : List Label := (List.range cfg.nPools).flatMap fun q =>
     match (s.pools.getD q default).owner, (cfg.pool q).asCompleted with
     | .collect, true => (cfg.pool q).jobs.map (Label.owner q)
     | _, _ => [Label.owner q 0]
   let pool : List Label := (List.range cfg.nPools).flatMap fun q => [Label.take q, Label.exit q]
-  (owners ++ pool ++ (List.range cfg.n).map Label.task).filter fun l => (step cfg s l).isSome
+  (owners ++ pool ++ (List.range cfg.n).map Label.task).filter fun l => (stepF nc cfg s l).isSome
 
 def boolsJ (bs : List Bool) : Json := Json.arr (bs.map (fun (b : Bool) => toJson b)).toArray
 
@@ -79,23 +113,23 @@ def poolJ (P : PoolSt) : Json :=
   obj [("owner", Json.str (ownerS P.owner)), ("queue", natsJ P.queue), ("idle", toJson P.idle),
        ("exited", toJson P.exited), ("shutdown", toJson P.shutdown)]
 
-def obsJ (cfg : Cfg) (s : State) (withFiles : Bool) : Json :=
+def obsJ (nc : Bool) (cfg : Cfg) (s : State) (withFiles : Bool) : Json :=
   obj ([("pools", Json.arr (s.pools.map poolJ).toArray),
         ("futs", strsJ (s.futs.map futS)),
         ("tasks", strsJ (s.tasks.map pcS)),
         ("cb", toJson s.cbLock), ("cbin", boolsJ s.cbIn), ("tl", boolsJ s.tLocks),
         ("inflight", toJson s.inFlight), ("oversized", toJson s.oversized),
         ("log", natsJ s.log),
-        ("enabled", Json.arr ((choices cfg s).map labelJ).toArray),
+        ("enabled", Json.arr ((choices nc cfg s).map labelJ).toArray),
         ("terminal", toJson (terminal s))]
        ++ (if withFiles then [("files", Json.arr (s.files.map natsJ).toArray)] else []))
 
-def runObs (cfg : Cfg) : State → List Label → Nat → Array Json → Array Json × Option Nat × State
+def runObs (nc : Bool) (cfg : Cfg) : State → List Label → Nat → Array Json → Array Json × Option Nat × State
   | s, [], _, acc => (acc, none, s)
   | s, l :: ls, k, acc =>
-      match step cfg s l with
+      match stepF nc cfg s l with
       | none => (acc, some k, s)
-      | some s' => runObs cfg s' ls (k + 1) (acc.push (obsJ cfg s' false))
+      | some s' => runObs nc cfg s' ls (k + 1) (acc.push (obsJ nc cfg s' false))
 
 structure CoverSt where
   seen : Std.HashSet State := {}
@@ -104,54 +138,67 @@ structure CoverSt where
   deadlocks : Nat := 0
   truncated : Bool := false
 
-partial def complete (cfg : Cfg) (s : State) (rev : List Label) : List Label :=
-  match choices cfg s with
+partial def complete (nc : Bool) (cfg : Cfg) (s : State) (rev : List Label) : List Label :=
+  match choices nc cfg s with
   | [] => rev.reverse
-  | l :: _ => match step cfg s l with
-    | some s' => complete cfg s' (l :: rev)
+  | l :: _ => match stepF nc cfg s l with
+    | some s' => complete nc cfg s' (l :: rev)
     | none => rev.reverse
 
-partial def dfs (cfg : Cfg) (maxStates : Nat) (s : State) (rev : List Label) :
+partial def dfs (nc : Bool) (cfg : Cfg) (maxStates : Nat) (s : State) (rev : List Label) :
     StateM CoverSt Unit := do
-  let ls := choices cfg s
+  let ls := choices nc cfg s
   if ls.isEmpty then
     modify fun c => { c with scheds := c.scheds.push rev.reverse
                              deadlocks := c.deadlocks + (if terminal s then 0 else 1) }
   else
     for l in ls do
-      match step cfg s l with
+      match stepF nc cfg s l with
       | none => pure ()
       | some s' =>
           modify fun c => { c with edges := c.edges + 1 }
           let c ← get
           if c.seen.contains s' then
-            modify fun c => { c with scheds := c.scheds.push (complete cfg s' (l :: rev)) }
+            modify fun c => { c with scheds := c.scheds.push (complete nc cfg s' (l :: rev)) }
           else if c.seen.size ≥ maxStates then
             modify fun c => { c with truncated := true
-                                     scheds := c.scheds.push (complete cfg s' (l :: rev)) }
+                                     scheds := c.scheds.push (complete nc cfg s' (l :: rev)) }
           else
             modify fun c => { c with seen := c.seen.insert s' }
-            dfs cfg maxStates s' (l :: rev)
+            dfs nc cfg maxStates s' (l :: rev)
 
 def handle : Handler := fun m j =>
   match m with
   | "writern.run" => some do
       let cfg ← getCfg j
       let sched ← (← getArr j "sched").mapM getLabel
+      let nc := getNc j
       let s0 := init cfg
-      let (obs, stuck, sEnd) := runObs cfg s0 sched 0 #[obsJ cfg s0 false]
+      let (obs, stuck, sEnd) := runObs nc cfg s0 sched 0 #[obsJ nc cfg s0 false]
       return obj [("obs", Json.arr obs), ("stuck", match stuck with | some k => toJson k | none => Json.null),
-                  ("final", obsJ cfg sEnd true), ("wf", toJson (wfb cfg && layoutb cfg && preallocb cfg)),
+                  ("final", obsJ nc cfg sEnd true),
+                  ("wf", toJson (wfb cfg && layoutb cfg && preallocb cfg && (!nc || ncb cfg))),
                   ("serial", Json.arr ((serialFiles cfg).map natsJ).toArray)]
   | "writern.cover" => some do
       let cfg ← getCfg j
       let maxStates ← getNat j "maxStates"
+      let nc := getNc j
       let s0 := init cfg
-      let ((), c) := (dfs cfg maxStates s0 []).run { seen := ({} : Std.HashSet State).insert s0 }
+      let ((), c) := (dfs nc cfg maxStates s0 []).run { seen := ({} : Std.HashSet State).insert s0 }
       return obj [("scheds", Json.arr (c.scheds.map fun sc => Json.arr (sc.map labelJ).toArray)),
                   ("states", toJson c.seen.size), ("edges", toJson c.edges),
                   ("deadlocks", toJson c.deadlocks), ("truncated", toJson c.truncated),
-                  ("wf", toJson (wfb cfg && layoutb cfg && preallocb cfg))]
+                  ("wf", toJson (wfb cfg && layoutb cfg && preallocb cfg && (!nc || ncb cfg)))]
+  | "writern.plan" => some do
+      let ts ← (← getArr j "ts").mapM getTSpec
+      let maxShard ← getOptNat j "maxShard"
+      let al ← getOptNat j "al"
+      match planCfg ts maxShard al (← getNat j "athr") (← getNat j "workers") (← getNat j "capacity") with
+      | none => return obj [("cfg", Json.null)]
+      | some cfg =>
+          return obj [("cfg", cfgJ cfg), ("wf", toJson (wfb cfg)), ("layout", toJson (layoutb cfg)),
+                      ("prealloc", toJson (preallocb cfg)),
+                      ("shards", toJson (shardsOf ts maxShard al (← getNat j "athr")).length)]
   | _ => none
 
 end IrVerif.Drive.WriterN
